@@ -343,6 +343,13 @@ contract('SmtpRelayClient._run', props=['C11', 'C19'], yields=True,
 ML = 'slimta/relay/smtp/lmtpclient.py'
 klass('LmtpRelayClient', ['SmtpRelayClient'], module=ML)
 
+extern('ClientView.lhlo', params={'self': 'ClientView', 'lhlo_as': 'Any'}, returns='Reply', yields=True, requires=SCOPE,
+       raises=CL_RAISES, ensures=['result != None', 'result.code is not None', 'len(cast(result.code, Str)) == 3'],
+       notes='LmtpClient.lhlo (assumed view, under contract for C10): waits for the peer (G4 scope required)')
+# LMTP greeting: LHLO under command_timeout; an error reply is raised as a relay error (no HELO fallback in LMTP)
+contract('LmtpRelayClient._ehlo', module=ML, props=['C11', 'C14'], params={'self': 'LmtpRelayClient'}, returns='None',
+         raises=ERR, modifies=['fresh'], checks=['ncalls("ClientView.lhlo") == 1', 'not call_result("ClientView.lhlo", 0).is_error()'],
+         scope_timeouts=['self.connect_timeout', 'self.command_timeout', 'self.data_timeout'])
 contract('LmtpRelayClient._send_message_data', kind='extern', yields=True,
          params={'self': 'LmtpRelayClient', 'envelope': 'Envelope'}, returns='List[Tuple[Str, Reply]]',
          requires=['envelope != None'], raises=ERR, ensures=['LMTP_ok(result)'],
